@@ -2,8 +2,8 @@ package rules
 
 import (
 	"fmt"
-	"os"
 	"go/token"
+	"os"
 	"sort"
 	"strings"
 
@@ -289,7 +289,7 @@ func (c *d6Ctx) successFacts(inf *d6Info, call *ssa.Call) world.Facts {
 func (c *d6Ctx) flow(inf *d6Info) (eg world.EdgeGen, gen, genMay world.InstrFn) {
 	eg = func(b *ssa.BasicBlock, si int) world.Facts {
 		var f world.Facts
-		if iff := world.IfOf(b); iff != nil && isErrNotExistCond(iff.Cond) && si == 0 {
+		if iff := world.IfOf(b); iff != nil && isErrNotExistCond(world.CondValue(iff)) && si == 0 {
 			f |= d6NOEX
 		}
 		// success edges of tested calls
@@ -631,7 +631,6 @@ func ruleD6(w *world.World, r *report.RuleResult) {
 		r.Fail(key, w.Pos(rs.Pos()), fmt.Sprintf("TakeSnapshot and Restore build different paths: writer manifest %v state %v; reader manifest %v state %v — a snapshot that was written cannot be found again", wm, wst, rm, rst))
 	}
 }
-
 
 // newStateLeaves: the non-constant values from which the path of the state file written by this
 // attempt is built (its directory field, the timestamp of this attempt, ...).
